@@ -196,3 +196,49 @@ Theorem C04_whole_run_frame :
     f' q = WholeDet.det_fs s q.
 Proof. exact Gengo.Props.Whole.Whole_determinism_frame. Qed.
 Print Assumptions C04_whole_run_frame.
+
+(* ---- the fixed-point hypothesis discharged for a REAL generator (Model/Generators.v, Proofs/GeneratorsPipe.v).
+   deepcopy is not a generator that "does not read generated files": go/types shows it the methods of the file an
+   earlier run left ([dvis]; copy_fields.go scans them).  [deepcopy_det_gen dgraph dvis …] renders (a printing of)
+   Model/DeepCopy.v's gen_deepcopy on the declarations of the source files ([dgraph]) with those methods visible.
+   By C17_independent_of_previous_output its rendering depends on the sources only, provided the source declarations
+   are a function of the sources and what the earlier run left is shape-consistent (methods with map receivers belong
+   to map types: true of every file the generator wrote, gen_deepcopy_vis_ok).  So C04_fixed_point holds with the
+   deepcopy generator in the run and NO assumption on it. ---- *)
+Require Gengo.Model.Generators Gengo.Proofs.GeneratorsPipe Gengo.Proofs.DeepCopy.
+Module GN := Gengo.Model.Generators.
+Module GP := Gengo.Proofs.GeneratorsPipe.
+
+Theorem C04_deepcopy_reads_sources_only : forall dgraph dvis print_method imports_of fuel,
+  (forall p p', src_eq p p' -> dgraph p = dgraph p') ->
+  (forall p, Gengo.Proofs.DeepCopy.vis_ok (dgraph p) (dvis p)) ->
+  reads_sources_only (GN.deepcopy_det_gen dgraph dvis print_method imports_of fuel).
+Proof. exact GP.deepcopy_reads_sources_only. Qed.
+Print Assumptions C04_deepcopy_reads_sources_only.
+
+Theorem C04_fixed_point_with_deepcopy :
+  forall dgraph dvis print_method imports_of fuel,
+    (forall p p', src_eq p p' -> dgraph p = dgraph p') ->
+    (forall p, Gengo.Proofs.DeepCopy.vis_ok (dgraph p) (dvis p)) ->
+  forall render parse_sum (o1 o2 : oracle) a e gens w w' f f1 log1,
+    shuffles o1 -> shuffles o2 -> wf_args a -> wf_world w -> wf_world w' ->
+    NoDup (map pk_dir (w_pkgs w)) -> is_gen_name a sum_name = false ->
+    Forall reads_sources_only gens -> reload w w' ->
+    loaded a w f -> regen_all a w f ->
+    let gens' := GN.deepcopy_det_gen dgraph dvis print_method imports_of fuel :: gens in
+    run true true render parse_sum o1 a e w gens' f = Some (f1, log1) ->
+    exists f2 log2,
+      run true true render parse_sum o2 a e w' gens' f1 = Some (f2, log2)
+      /\ forall q, q <> (w_moddir w', sum_name) -> f2 q = f1 q.
+Proof. exact GP.fixed_point_with_deepcopy. Qed.
+Print Assumptions C04_fixed_point_with_deepcopy.
+
+(* non-vacuity: a type graph with every feature, and "what an earlier run left" = the generator's own output when the
+   directory has files, nothing otherwise — different between the two loads, both shape-consistent *)
+Example C04_deepcopy_hypotheses_satisfiable : forall pm io,
+  reads_sources_only
+    (GN.deepcopy_det_gen (fun _ => Gengo.Proofs.DeepCopyTop.w_all)
+       (fun p => match GN.DC.gen_deepcopy 8 GN.DC.all_fixed Gengo.Proofs.DeepCopyTop.w_all Gengo.Proofs.DeepCopyTop.w_all_order [] with
+                 | Ok ms => if is_nil (pk_files p) then [] else ms
+                 | _ => [] end) pm io 8).
+Proof. exact GP.deepcopy_det_witness. Qed.
